@@ -1180,6 +1180,22 @@ func RunC18(t *kernel.Tape, o Opts) *Result {
 			continue
 		}
 		if c.errText != "" {
+			// An error seen by a caller whose own operation was not faulted,
+			// while another task's RPCs were failing: a client that shares
+			// in-flight calls between callers may hand it the other caller's
+			// error. Not judged (the same rule as for whole resolutions).
+			shared := false
+			for ti, ops := range programs {
+				for _, x := range ops {
+					if ti != c.task && x.fired && x.Fault >= faultErrOnce && x.start>>32 == 0 && x.start < c.ret && c.call < x.end {
+						shared = true
+					}
+				}
+			}
+			if shared {
+				probe(res, "errors_while_another_tasks_rpcs_failed", 1)
+				continue
+			}
 			violate(res, "model-mismatch", "model-mismatch:unexpected-error:"+c.kind, int(c.call), "%s(%s %s) returned an unexpected error: %s", c.kind, c.key.Name, c.key.Version, c.errText)
 			continue
 		}
